@@ -58,6 +58,7 @@ static const char *const *g_argv;
 static reproc_t *g_p;
 static struct vp_snap g_snap;          /* descriptor table before start */
 static uint64_t g_mask0;
+static int8_t g_disp0[32];
 static int64_t g_T0;
 static int g_user_fd[2];
 static int g_parent_end_pipe[4];       /* pipe objects of the parent's in/out/err/exit ends */
@@ -174,9 +175,15 @@ static void child_state_checks(bool at_exec)
     VP_ASSERT(C01, is_exit, "the program does not hold the exit-detection handle");
   }
   VP_ASSERT(C12, vp_sigmask == 0, "the program does not start with an empty signal mask");
-  uint32_t want = 0xfffffffeu & ~((uint32_t) 1 << SIGKILL) & ~((uint32_t) 1 << SIGSTOP);
-  VP_ASSERT(C12, (vp_child_dfl & want) == want,
-            "a standard signal keeps a non-default disposition in the child");
+  /* exec itself resets caught signals to the default but keeps ignored ones ignored; without exec
+   * (fork mode) handlers stay installed too */
+  bool disp_ok = true;
+  for (int sg = 1; sg < 32; sg++) {
+    if (sg != SIGKILL && sg != SIGSTOP) {
+      disp_ok = disp_ok && (vp_sig_disp[sg] == 0 || (at_exec && vp_sig_disp[sg] == 2));
+    }
+  }
+  VP_ASSERT(C12, disp_ok, "a standard signal keeps a non-default disposition in the child");
   VP_ASSERT(C04, vp_child_reported == 0, "the child reported an error but went on to run");
 }
 
@@ -315,6 +322,12 @@ void harness(void)
   uint64_t m_hi = (uint64_t) (unsigned) vp_choice(0, INT_MAX);
   uint64_t m_lo = (uint64_t) (unsigned) vp_choice(0, INT_MAX);
   vp_sigmask = (m_hi << 31) ^ m_lo;
+  for (int sg = 1; sg < 32; sg++) {
+    vp_sig_disp[sg] = (int8_t) vp_choice(0, 2); /* what the parent does with each signal */
+  }
+  for (int sg = 0; sg < 32; sg++) {
+    g_disp0[sg] = vp_sig_disp[sg];
+  }
   g_mask0 = vp_sigmask;
   vp_sigmask0 = vp_sigmask;
   vp_sigmask0_valid = VP_ON(C12) != 0; /* C12 excludes a failing restoring call; the others do not */
@@ -414,7 +427,11 @@ void harness(void)
   /* ------------------------------------------------------------ parent side */
   VP_ASSERT(C04, r < 0 || r == 1, "start returns something other than an error or 1 in the parent");
   VP_ASSERT(C12, vp_sigmask == g_mask0, "start returns with a different signal mask than it was called with");
-  VP_ASSERT(C12, vp_sigaction_calls == 0 && vp_chdir_calls == 0 && environ == environ0,
+  bool disp_same = true;
+  for (int sg = 1; sg < 32; sg++) {
+    disp_same = disp_same && vp_sig_disp[sg] == g_disp0[sg];
+  }
+  VP_ASSERT(C12, disp_same && vp_chdir_calls == 0 && environ == environ0,
             "start changed dispositions, working directory or environment of the caller");
   VP_ASSERT(C20, environ == environ0, "start writes the process-wide environ in the parent");
 
@@ -432,6 +449,7 @@ void harness(void)
     VP_ASSERT(C04, fresh(p), "failed start leaves the handle in a state other than not-started");
     VP_ASSERT(C14, fresh(p), "failed start leaves the handle in a state other than not-started");
     VP_ASSERT(C10, fresh(p), "failed start leaves stale pipe ends (or a deadline) that a later start would keep");
+    VP_ASSERT(C15, fresh(p), "failed start leaves a deadline (or pipes) that a later start and destroy would act on");
     VP_ASSERT(C05, vp_table_equals(&g_snap), "failed start leaks or loses a descriptor");
     VP_ASSERT(C04, vp_table_equals(&g_snap), "failed start leaks or loses a descriptor");
     VP_ASSERT(C05, vp_live_allocs == allocs0, "failed start leaks memory");
